@@ -77,4 +77,4 @@ class COOStructure(NamedTuple):
 
     @property
     def nnz(self):
-        return self.row_numbers[self.nrows]
+        return len(self.row_numbers)
